@@ -113,6 +113,59 @@ func runC18(c *Ctx) error {
 			w.Count("presentation.url-bare")
 		}
 	}
+	// ---- a scalar carried by an embedded field of a named type: the same verdict as the scalar alone
+	emitDirectedShapes(w)
+	for _, x := range []struct {
+		v    interface{}
+		rule string
+		viol bool
+	}{{WAge(200), "to=1~150|T81", true}, {WAge(20), "to=1~150|T81", false}, {WNick("abc"), "to=5~9|T82", true}} {
+		spec := "SNil"
+		if x.viol {
+			spec = "SExpect true " + galExps([]expE{{"C", "", strings.SplitN(x.rule, "|", 2)[1]}})
+		}
+		call := &walkCall{Entry: "var", VarRules: []string{x.rule}, Src: x.v}
+		term, desc := call.caseTerm([]string{spec, "SNoPanic"})
+		desc["presentation"] = "var-named-scalar"
+		w.Add(term, desc, fmt.Sprintf("named-scalar:%T:%v", x.v, x.viol))
+	}
+	// ---- directed: every string specimen x every one of its rules x every spelling of the value in a query
+	// (QueryEscape: blanks as '+'; blanks as %20; raw when no byte has a meaning in a query)
+	for _, sp := range specimens {
+		s, ok := sp.val.(string)
+		if !ok || s == "" {
+			continue
+		}
+		for ri, x := range sp.rules {
+			if strings.ContainsAny(x.text, ",") {
+				continue
+			}
+			m := fmt.Sprintf("M%dq", ri)
+			spec := "SNil"
+			if x.viol {
+				spec = "SExpect true " + galExps([]expE{{"C", "k", m}})
+			}
+			spellings := map[string]string{"encoded": url.QueryEscape(s)}
+			if strings.Contains(s, " ") {
+				spellings["pct20"] = strings.ReplaceAll(url.QueryEscape(s), "+", "%20")
+			}
+			if !strings.ContainsAny(s, "+%#&= ") {
+				spellings["raw"] = s
+			}
+			for _, enc := range []string{"encoded", "pct20", "raw"} {
+				v, ok := spellings[enc]
+				if !ok {
+					continue
+				}
+				call := &walkCall{Entry: "url", Rules: map[string]string{"k": x.text + "|" + m}, Src: "http://h.example/a?k=" + v}
+				term, desc := call.caseTerm([]string{spec, "SNoPanic"})
+				desc["presentation"] = "url-" + enc
+				desc["rules"] = x.text
+				w.Add(term, desc, fmt.Sprintf("directed-url:%s:%s:%s", enc, sp.name, strings.SplitN(x.text, "=", 2)[0]))
+				w.Count("presentation.url-directed")
+			}
+		}
+	}
 	// ---- rule texts of which one is contained in another, given without messages (Var takes them as separate
 	// arguments, the others as one comma-separated text): every one is evaluated
 	for _, x := range []struct {
